@@ -107,7 +107,7 @@ func init() {
 	reg(&Prop{ID: "C10", Level: "exploration",
 		Quick:    Tier{Cases: 40000, PerJob: 2500, Seconds: 60},
 		Thorough: Tier{Cases: 2000000, PerJob: 25000, Seconds: 1500},
-		Rule:     "one case = blob <= 24 chunks (null-chunk runs, repeated chunks, generic) x 1..3 phases; each phase opens a SparseFile on the same cache/state files (a restart) and runs 1..4 concurrent reader tasks (ReadAt or the FUSE sparse-file node) with 1..12 reads each, 0..2 tasks that save the state at tape-chosen moments, optional preload from an earlier state with 0..4 workers, transient store failures / missing / latency (2/3 of the phases) or a store that fails every request after a restart (1/3 of later phases), process death at a tape-chosen scheduling step (1/4 of the phases; only files survive); between phases the state file may be removed or replaced by one of another length and the cache file removed, shrunk or grown; oracle per read: bytes == blob range or an error attributable to a store failure injected for one of its chunks during the call; distinct = distinct (class, trace hashes); non-trivial = preemption or fault fired",
+		Rule:     "one case = blob <= 24 chunks (null-chunk runs, repeated chunks, generic) x 1..3 phases; each phase opens a SparseFile on the same cache/state files (a restart) and runs 1..4 concurrent reader tasks (ReadAt or the FUSE sparse-file node) with 1..12 reads each, 0..2 tasks that save the state at tape-chosen moments, optional preload from an earlier state with 0..4 workers, transient store failures / missing / latency (2/3 of the phases) or a store that fails every request after a restart (1/3 of later phases), process death at a tape-chosen scheduling step (1/4 of the phases; only files survive); between phases the state file may be removed or replaced by one of another length and the cache file removed, shrunk or grown; a later phase may be preceded by a start that names a missing or foreign pre-load state file and therefore fails half-way; oracle per read: bytes == blob range or an error attributable to a store failure injected for one of its chunks during the call; distinct = distinct (class, trace hashes); non-trivial = preemption or fault fired",
 		Assumptions: []string{
 			"process death is modelled by freezing every task at a scheduling point (file-system calls are scheduling points in half of the cases) and reopening from the files; this equals SIGKILL for file contents because the page cache survives process death and desync buffers nothing in user space on this path",
 			"reads with offset > size are only issued through ReadAt, not through the FUSE node (the kernel clamps them)",
@@ -140,7 +140,7 @@ func init() {
 	reg(&Prop{ID: "C14", Level: "exploration",
 		Quick:    Tier{Cases: 48000, PerJob: 3000, Seconds: 70},
 		Thorough: Tier{Cases: 2400000, PerJob: 40000, Seconds: 1500},
-		Rule:     "one case = one of {chunk GET/HEAD/PUT through the real RemoteHTTP client and HTTPHandler over an in-process transport, for every combination of client/server -u, upstream format, verify flags per hop; index GET/PUT through RemoteHTTPIndex and HTTPIndexHandler (optionally chained behind a second index server) and HEAD on the index handler; a casync-protocol session of 1..8 requests against ProtocolServer over a pipe with byte-wise fragmentation and the connection cut after a tape-chosen byte} x response script (0..7 transient failures out of {connection reset, 500, 503, short body, response delayed past the client time-out}, then served / 404 / 400 / 403) x error-retry 0..5 x back-off base 1..500 ms, all in fake time; oracle: payload byte-identical, missing <=> ChunkMissing/NoSuchObject/false/404, failures never reported as missing or success, transient runs shorter than the budget invisible, requests seen == min(f+1, max(1, error-retry)), simulated time spent == documented linear back-off (+ time-outs); distinct = distinct (class incl. script shape, trace hash / tape); non-trivial = a transport fault fired or a multi-request session ran; 1/100 of the cases are process-level: the real `desync chunk-server [-u] [-w]` or `desync index-server [-w]` on a loopback port over a local store, talked to by the real HTTP client (present / missing / HEAD / PUT); `desync cat --config cfg [-e E] [-b I]` against a server answering the first f requests per object with 503 (budget = config store-options unless -e is given; attempts per fetch bounded, f < budget invisible, f >= budget an error); the casync protocol end to end: RemoteSSHStore (sequential requests, FIFO session pool modelled) or `desync extract|cache -s ssh://` over an ssh shim that runs the real `desync pull` on a compressed or (config file) uncompressed local store, with chunks missing and the link dying after n bytes of server output; a tenth of the cases let 2..4 clients fetch 1..4 of 2..4 indexes and chunks each from one index / chunk handler at the same time under the seeded scheduler, through a response writer that holds the handler's slice across a scheduling point (a slow client): every response must be the object asked for",
+		Rule:     "one case = one of {chunk GET/HEAD/PUT through the real RemoteHTTP client and HTTPHandler over an in-process transport, for every combination of client/server -u, upstream format, verify flags per hop; index GET/PUT through RemoteHTTPIndex and HTTPIndexHandler (optionally chained behind a second index server) and HEAD on the index handler; a casync-protocol session of 1..8 requests against ProtocolServer over a pipe with byte-wise fragmentation and the connection cut after a tape-chosen byte, half of them followed by two overlapping GETs through a compressed HTTPHandler in front of that session (the second request runs inside the first Write of the first response, when the session is free again): both 200 bodies must be the chunks asked for} x response script (0..7 transient failures out of {connection reset, 500, 503, short body, response delayed past the client time-out}, then served / 404 / 400 / 403) x error-retry 0..5 x back-off base 1..500 ms, all in fake time; oracle: payload byte-identical, missing <=> ChunkMissing/NoSuchObject/false/404, failures never reported as missing or success, transient runs shorter than the budget invisible, requests seen == min(f+1, max(1, error-retry)), simulated time spent == documented linear back-off (+ time-outs); distinct = distinct (class incl. script shape, trace hash / tape); non-trivial = a transport fault fired or a multi-request session ran; 1/100 of the cases are process-level: the real `desync chunk-server [-u] [-w]` or `desync index-server [-w]` on a loopback port over a local store, talked to by the real HTTP client (present / missing / HEAD / PUT); `desync cat --config cfg [-e E] [-b I]` against a server answering the first f requests per object with 503 (budget = config store-options unless -e is given; attempts per fetch bounded, f < budget invisible, f >= budget an error); the casync protocol end to end: RemoteSSHStore (sequential requests, FIFO session pool modelled) or `desync extract|cache -s ssh://` over an ssh shim that runs the real `desync pull` on a compressed or (config file) uncompressed local store, with chunks missing and the link dying after n bytes of server output; a tenth of the cases let 2..4 clients fetch 1..4 of 2..4 indexes and chunks each from one index / chunk handler at the same time under the seeded scheduler, through a response writer that holds the handler's slice across a scheduling point (a slow client): every response must be the object asked for",
 		Assumptions: []string{
 			"client and server agree on -u (the chunk file extension is part of the request path); mismatched pairs are a configuration error and not generated",
 			"after a missing chunk the protocol server ends the session; later requests on that session may fail but must not be answered wrongly",
@@ -163,7 +163,7 @@ func init() {
 	reg(&Prop{ID: "C19", Level: "fault_enumeration",
 		Quick:    Tier{Cases: 960, PerJob: 60, Seconds: 70},
 		Thorough: Tier{Cases: 96000, PerJob: 1000, Seconds: 1500},
-		Rule:     "one case = a valid stream (generated index of 0..59 chunks; a casync-made catar fixture or the archive of a generated tree (xattrs, devices, symlinks, hostile names); a sequence of casync protocol messages) fed to one decoder (IndexFromReader, HTTP index handler PUT, FormatDecoder.Next, ArchiveDecoder.Next, Protocol.ReadMessage) through a reader that injects: truncation at EVERY byte (<= 3000 evenly spaced for long streams), EVERY element/message size field set to each of 0, 1, 8, 15, 16, 17, 24, 31..33, 40, 47, 48, 63..65, size-1, size+1, size+24, 2^20, 2^50, 2^63, 2^64-1, 2^64-16 (and 2^28 occasionally), every type field replaced by another element type, 64 random bit flips, fragmented reads, and I/O errors at a tape-chosen read; oracle: no panic, bytes allocated by the call <= 8*len(input)+128 KiB (runtime.MemStats delta), reader errors surface; sub_evaluations = faulted decodes; distinct = distinct tapes; non-trivial = a fault was applied; 1/12 of the cases write a faulted index or archive (truncation, size field set to a critical value incl. 2^31 and 2^36, type field replaced, bit flip; 8 per case) to a file and run the real `desync list-chunks` / `desync info` (index) or `desync mtree` / `desync untar` (archive) on it with the address space capped at 4 GiB: no panic, no runtime fatal error, exit status 0 or 1; every third element additionally gets each of 19 element types combined with each of 18 sizes around the fixed parts (16..72)",
+		Rule:     "one case = a valid stream (generated index of 0..59 chunks; a casync-made catar fixture or the archive of a generated tree (xattrs, devices, symlinks, hostile names); a sequence of casync protocol messages; or one side of a protocol session - HELLO, 1..6 REQUESTs for stored chunks, GOODBYE as a server receives them, or HELLO and 1..6 CHUNK/MISSING replies as a client receives them) fed to one decoder (IndexFromReader, HTTP index handler PUT, FormatDecoder.Next, ArchiveDecoder.Next, Protocol.ReadMessage, ProtocolServer.Serve, Protocol.Initialize + RequestChunk) through a reader that injects: truncation at EVERY byte (<= 3000 evenly spaced for long streams), EVERY element/message size field set to each of 0, 1, 8, 15, 16, 17, 24, 31..33, 40, 47, 48, 63..65, size-1, size+1, size+24, 2^20, 2^50, 2^63, 2^64-1, 2^64-16 (and 2^28 occasionally), every type field replaced by another element type, 64 random bit flips, fragmented reads, and I/O errors at a tape-chosen read; oracle: no panic, bytes allocated by the call <= 8*len(input)+128 KiB (runtime.MemStats delta; the two session targets get 64 KiB more per message of the valid stream, the measured fixed cost of reading and compressing one small chunk), reader errors surface; sub_evaluations = faulted decodes; distinct = distinct tapes; non-trivial = a fault was applied; 1/12 of the cases write a faulted index or archive (truncation, size field set to a critical value incl. 2^31 and 2^36, type field replaced, bit flip; 8 per case) to a file and run the real `desync list-chunks` / `desync info` (index) or `desync mtree` / `desync untar` (archive) on it with the address space capped at 4 GiB: no panic, no runtime fatal error, exit status 0 or 1; every third element additionally gets each of 19 element types combined with each of 18 sizes around the fixed parts (16..72)",
 		Assumptions: []string{
 			"'all byte strings' is explored only as faulted valid streams (DESIGN.md C19 honest limit)",
 			"size values between 2^31 and 2^47 are not injected: the unpatched decoder would really try to allocate them and take the sandbox down; 2^20/2^28 (really allocated) and >= 2^50 (makeslice panic) bracket that range",
